@@ -93,8 +93,80 @@ def check_file(raw, want, invalid):
     return _compare(got, [tuple(w) for w in want], 'hand-written file')
 
 
+def layout(payloads, style):
+    """A plain-text SYX file for the given sysex payloads in one of several legal whitespace layouts."""
+    stream = [b for p in payloads for b in [0xF0] + list(p) + [0xF7]]
+    if style == 'hexdump-crlf':            # 16 bytes per line, DOS line ends
+        return '\r\n'.join(' '.join(f'{b:02X}' for b in stream[i:i + 16]) for i in range(0, len(stream), 16)) + '\r\n'
+    if style == 'tab-indented':            # 8 bytes per line, continuation lines indented with a tab
+        return '\n\t'.join(' '.join(f'{b:02x}' for b in stream[i:i + 8]) for i in range(0, len(stream), 8)) + '\n'
+    if style == 'one-per-line':
+        return '\n'.join(f'{b:02X}' for b in stream) + '\n'
+    if style == 'no-separator':
+        return ''.join(f'{b:02X}' for b in stream)
+    if style == 'double-space':
+        return '  '.join(f'{b:02X}' for b in stream)
+    raise KeyError(style)
+
+
+def check_layout(case):
+    n, size, style = case['n'], case['size'], case['style']
+    payloads = [[(i * 7 + k) % 128 for k in range(size + i % 3)] for i in range(n)]
+    text = layout(payloads, style)
+    return check_file(list(text.encode('ascii')), [tuple(p) for p in payloads], False)
+
+
+def check_fifo(case):
+    """The file need not be a regular file: a named pipe with a writer at the other end (a dump piped from a tool)."""
+    import threading
+    dicts, fmt = case['msgs'], case['fmt']
+    msgs = [mido.Message(d['type'], **{k: v for k, v in d.items() if k != 'type'}) for d in dicts]
+    if not hasattr(os, 'mkfifo'):
+        return []
+    with tempfile.TemporaryDirectory(prefix='c19_') as tmp:
+        path = os.path.join(tmp, 'pipe.syx')
+        try:
+            os.mkfifo(path)
+        except OSError:
+            return []           # no named pipes here: nothing is claimed
+        box = {}
+
+        def writer():
+            try:
+                mido.write_syx_file(path, msgs, plaintext=(fmt == 'text'))
+            except Exception as exc:  # noqa: BLE001
+                box['w'] = exc
+
+        def reader():
+            try:
+                box['got'] = mido.read_syx_file(path)
+            except Exception as exc:  # noqa: BLE001
+                box['r'] = exc
+        tw, tr = threading.Thread(target=writer, daemon=True), threading.Thread(target=reader, daemon=True)
+        tw.start()
+        tr.start()
+        tw.join(20)
+        tr.join(20)
+        if tw.is_alive() or tr.is_alive():
+            # unblock whichever side is still waiting for a partner, then report
+            try:
+                fd = os.open(path, os.O_RDWR | os.O_NONBLOCK)
+                os.close(fd)
+            except OSError:
+                pass
+            return [fail('fifo-hangs', f'{fmt}: write/read through a named pipe did not finish within 20 s', fmt=fmt)]
+        if 'w' in box or 'r' in box:
+            exc = box.get('w') or box.get('r')
+            return [fail('read-raises', f'{fmt} through a named pipe: {exc!r}', exc=exc_sig(exc), fmt=fmt)]
+    return _compare(box['got'], _expect(dicts), f'round trip ({fmt}, named pipe)')
+
+
 def run_case(case):
     k = case['kind']
+    if k == 'layout':
+        return check_layout(case)
+    if k == 'fifo':
+        return check_fifo(case)
     if k == 'roundtrip':
         return check_roundtrip(case['msgs'], case['fmt'], case.get('stale'))
     return check_file(case['raw'], case.get('want', []), case.get('invalid', False))
@@ -204,6 +276,15 @@ def main(ctx):
     n = 250 if ctx.tier == 'quick' else 8000
     ctx.pmap('hyp_shard', [('rt', k, n) for k in range(4)] + [('text', k, n // 2) for k in range(2)] +
              [('bin', k, n // 2) for k in range(2)] + [('invalid', k, n // 2) for k in range(2)])
+    # large hand-formatted text files in layouts other than the writer's (sizes around powers of two of characters)
+    for style in ('hexdump-crlf', 'tab-indented', 'one-per-line', 'double-space'):
+        for n, size in ((3, 5), (40, 1000), (300, 1000)):
+            ctx.check({'kind': 'layout', 'n': n, 'size': size, 'style': style}, classes=('layout',), sample=(n == 3))
+    for fmt in ('bin', 'text'):
+        ctx.check({'kind': 'fifo', 'fmt': fmt, 'msgs': [{'type': 'sysex', 'data': [1, 2, 3], 'time': 0},
+                                                      {'type': 'note_on', 'channel': 0, 'note': 1, 'velocity': 2, 'time': 0},
+                                                      {'type': 'sysex', 'data': list(range(100)), 'time': 0}]},
+                  classes=('named-pipe',), sample=False)
     for fmt in ('bin', 'text'):
         many = [{'type': 'sysex', 'data': [i % 128, (i // 128) % 128], 'time': 0} for i in range(1500)]
         ctx.check({'kind': 'roundtrip', 'msgs': many, 'fmt': fmt}, sample=False)
